@@ -201,19 +201,13 @@ Proof.
     + crunch. neutral.
     + crunch. neutral.
     + destruct pc; simpl in H; crunch; neutral.
-  - (* add_label *)
-    destruct pc as [|[|[|[|pc]]]]; simpl in H.
-    + destruct (node_live s n); crunch; neutral.
-    + crunch. neutral.
-    + destruct (aget n (g_nlabels s)) as [ls|]; [destruct (zmem lb ls)|]; crunch; neutral.
-    + crunch. neutral.
+  - (* add_label: one step *)
+    destruct pc as [|pc]; simpl in H.
+    + destruct (node_live s n); [destruct (aget n (g_nlabels s)) as [ls|]; [destruct (zmem lb ls)|]|]; crunch; neutral.
     + destruct pc; simpl in H; crunch; neutral.
-  - (* remove_label *)
-    destruct pc as [|[|[|[|pc]]]]; simpl in H.
-    + destruct (node_live s n); crunch; neutral.
-    + destruct (zmem lb (g_catalog s)); crunch; neutral.
-    + destruct (aget n (g_nlabels s)) as [ls|]; [destruct (zmem lb ls)|]; crunch; neutral.
-    + crunch. neutral.
+  - (* remove_label: one step *)
+    destruct pc as [|pc]; simpl in H.
+    + destruct (node_live s n && zmem lb (g_catalog s)); [destruct (aget n (g_nlabels s)) as [ls|]; [destruct (zmem lb ls)|]|]; crunch; neutral.
     + destruct pc; simpl in H; crunch; neutral.
   - (* create_edge *)
     destruct pc as [|[|[|[|[|pc]]]]]; simpl in H; crunch.
